@@ -21,7 +21,7 @@ func litNum(t *rapid.T, label string) string {
 	return rapid.SampledFrom(litNums).Draw(t, label)
 }
 
-var litPres = []string{"0", "alpha", "alpha.1", "beta", "rc.1", "1", "a", "rc", "alpha.0", "0.0", "pre"}
+var litPres = []string{"0", "alpha", "alpha.1", "beta", "rc.1", "1", "a", "rc", "alpha.0", "0.0", "pre", "01", "rc.007", "00", "1a", "x-y"}
 
 // partial draws a (possibly partial, possibly wildcarded) version literal.
 //
